@@ -61,8 +61,8 @@ Record pcase := mkP {
 Definition p_req (c : pcase) : wreq := mkReq true false (p_cpu c) (p_cpu c) (p_mem c) (p_mem c).
 
 Definition p_model (c : pcase) : outcome (list (string * plan)) :=
-  get_cpu_plans_chk (p_info c) (p_origin c) (p_base c) (p_maxfrag c) (p_req c) (p_order c)
-                    (default_fuel (p_info c)).
+  get_cpu_plans_chk (p_info c) (p_origin c) (p_base c) (p_maxfrag c) (p_req c)
+                    (numa_visit_order (p_info c) (p_origin c)) (default_fuel (p_info c)).
 
 Definition reason_opt_eqb (r : reason) (o : option reason) : bool :=
   match o with Some r' => reason_eqb r r' | None => false end.
@@ -165,8 +165,8 @@ Record dcase := mkD {
   d_obs : dobs; d_cap : capobs }.
 
 Definition d_model (c : dcase) : outcome (cerr + deploy_result) :=
-  calculate_deploy_chk (d_info c) (d_base c) (d_maxshare c) (d_count c) (d_raw c) (d_order c)
-                       (default_fuel (d_info c)).
+  calculate_deploy_chk (d_info c) (d_base c) (d_maxshare c) (d_count c) (d_raw c)
+                       (numa_visit_order (d_info c) []) (default_fuel (d_info c)).
 
 Definition cerr_opt_eqb (e : cerr) (o : option cerr) : bool :=
   match o with Some e' => cerr_eqb e e' | None => false end.
@@ -203,7 +203,7 @@ Definition d_agree_cap (c : dcase) : bool :=
   match wreq_validate (d_raw c), d_cap c with
   | inl _, CapErr => true
   | inr req, o =>
-    match node_capacity_chk (d_info c) (d_base c) (d_maxshare c) req (d_order c) (default_fuel (d_info c)), o with
+    match node_capacity_chk (d_info c) (d_base c) (d_maxshare c) req (numa_visit_order (d_info c) []) (default_fuel (d_info c)), o with
     | Ok ci, CapOk present capa u r w total =>
         if 0 <? cap_capacity ci then
           present && (capa =? cap_capacity ci) && (total =? cap_capacity ci)
@@ -308,7 +308,8 @@ Record rcase := mkR {
   r_info : node_info; r_base : Z; r_maxshare : Z; r_origin : wres; r_raw : wreq;
   r_order : list string; r_obs : robs }.
 Definition r_model (c : rcase) : outcome (rerr2 + realloc_result) :=
-  calculate_realloc_chk (r_info c) (r_base c) (r_maxshare c) (r_origin c) (r_raw c) (r_order c)
+  calculate_realloc_chk (r_info c) (r_base c) (r_maxshare c) (r_origin c) (r_raw c)
+                        (numa_visit_order (r_info c) (wr_cpumap (r_origin c)))
                         (default_fuel (realloc_info (r_info c) (r_origin c))).
 Definition rerr2_opt_eqb (e : rerr2) (o : option rerr2) : bool :=
   match o with Some e' => rerr2_eqb e e' | None => false end.
